@@ -441,7 +441,10 @@ def rule_model(ctx, rule, tier_cells=None):
     try:
         # the last two passes repeat urls already converted under the other setting: the answer depends on
         # (url, suffix_aware) only, not on what was converted before
-        for aware, cells, again in ((False, LRU_CELLS, ""), (True, LRU_SUFFIX_CELLS, ""), (False, LRU_BOTH, "after-the-other-setting/"), (True, LRU_BOTH, "after-the-other-setting/")):
+        passes = [(False, LRU_CELLS, ""), (True, LRU_SUFFIX_CELLS, ""), (False, LRU_BOTH, "after-the-other-setting/"), (True, LRU_BOTH, "after-the-other-setting/")]
+        if tier_cells:
+            passes += [(False, tier_cells, "grid/"), (True, tier_cells, "grid/")]
+        for aware, cells, again in passes:
             for u in cells:
                 n += 1
                 exp = _ref_stems(u, aware)
@@ -489,4 +492,100 @@ def rule_model(ctx, rule, tier_cells=None):
                            conv.site(f_to_url.node), witness=u, sample="%r -> %r" % (arg, back))
     finally:
         repo.overrides = {}
-    ctx.require_instances(rule, n, len(LRU_CELLS) + len(LRU_SUFFIX_CELLS), "url cells")
+    ctx.require_instances(rule, n, len(LRU_CELLS) + len(LRU_SUFFIX_CELLS) + (2 * len(tier_cells) if tier_cells else 0), "url cells")
+
+
+# ----------------------------------------------------------------------
+# the ancestor law over a small universe (C13): all ordered pairs
+# ----------------------------------------------------------------------
+def rule_hierarchy(ctx, rule, thorough=False):
+    ctx.rule(rule, "model table (the ancestor law on a whole universe): lru_stems, interpreted (finite-domain interpreter; the public-suffix split answered by the reference algorithm on the miniature rule list) on every url of {schemes} x {no port, 8080} x host chains (incl. a multi-label public suffix, a private suffix, localhost) x path chains x {no tail, query, fragment, both}; for EVERY ordered pair (u, v): if v lies under u (same scheme and port, same host or a sub-domain when u has no path, path extended by whole segments, query / fragment only added) then the stems of u, its trailing empty path stems aside, are a prefix of the stems of v and the serialized LRU of u is a string prefix of v's; conversely a stem prefix implies that v lies under u; x suffix_aware")
+    from ..microeval import run_function, Native, Raised
+    from urllib.parse import urlsplit
+    from .c08 import _psl_reference, MINI_RULES
+    repo = ctx.repo
+    stems_mod = repo.mod("lru.stems")
+    f_stems = stems_mod.func("lru_stems")
+    site = stems_mod.site(f_stems.node)
+    schemes = ("http", "https") if thorough else ("http",)
+    ports = ("", ":8080")
+    hosts = ["a.com", "b.a.com", "c.b.a.com", "co.uk", "x.co.uk", "y.x.co.uk", "github.io", "a.github.io", "localhost"] if thorough else ["a.com", "b.a.com", "co.uk", "x.co.uk", "localhost"]
+    paths = ["", "/", "/p", "/p/", "/p/q", "/p/q/r", "/pq"] if thorough else ["", "/", "/p", "/p/q", "/pq"]
+    tails = ["", "?k=v", "#f", "?k=v#f"] if thorough else ["", "?k=v", "#f"]
+    urls = ["%s://%s%s%s%s" % (sc, h, po, pa, ta) for sc in schemes for h in hosts for po in ports for pa in paths for ta in tails]
+
+    def ref_split(parsed):
+        host = parsed.hostname if hasattr(parsed, "hostname") else urlsplit(parsed if "//" in parsed else "http://" + parsed).hostname
+        if host is None or re.match(r"^(?:localhost|\d{1,3}(?:\.\d{1,3}){3}|[\da-fA-F]*:[\da-fA-F:.]*)$", host):
+            return None
+        return _psl_reference(MINI_RULES, host)
+
+    def facts(u):
+        sp = urlsplit(u)
+        return (sp.scheme, sp.port, sp.hostname, [s for s in sp.path.split("/") if s], sp.query, sp.fragment, sp.path)
+
+    def under(fu, fv):
+        (su, pu, hu, gu, qu, ru, tu), (sv, pv, hv, gv, qv, rv, tv) = fu, fv
+        if su != sv or pu != pv:
+            return False
+        if not (hu == hv or (not gu and not qu and not ru and hv.endswith("." + hu))):
+            return False
+        if gv[:len(gu)] != gu:
+            return False
+        if qu or ru:
+            # u already has a query / fragment: nothing can be inserted in front of it, v may only add the fragment
+            return hu == hv and tu == tv and qu == qv and (not ru or ru == rv)
+        return True
+
+    repo.overrides = {"ural.tld.split_suffix": Native(ref_split)}
+    try:
+        for aware in (False, True):
+            stems = {}
+            for u in urls:
+                try:
+                    stems[u] = [str(x) for x in run_function(repo, f_stems, [u], {"suffix_aware": aware})]
+                except (Unknown, Raised) as e:
+                    ctx.undecided(rule, "lru_stems(%r, suffix_aware=%s): %s" % (u, aware, e))
+            F_ = dict((u, facts(u)) for u in stems)
+            def trimmed(st):
+                st = list(st)
+                while st and st[-1] == "p:":  # the empty path stems a trailing slash leaves at the END of u (what the tries drop)
+                    st.pop()
+                return st
+            core = dict((u, trimmed(st)) for u, st in stems.items())
+            bad_fwd = bad_conv = None
+            npairs = 0
+            for u in stems:
+                cu = core[u]
+                for v in stems:
+                    npairs += 1
+                    is_prefix = stems[v][:len(cu)] == cu
+                    lies_under = under(F_[u], F_[v])
+                    if lies_under and is_prefix and not ("|".join(stems[v]) + "|").startswith("|".join(cu) + "|"):
+                        is_prefix = False  # the serialized form (stems joined and terminated by '|') must be a string prefix too
+                    if lies_under and not is_prefix and bad_fwd is None:
+                        bad_fwd = (u, v)
+                    if is_prefix and not lies_under and bad_conv is None:
+                        bad_conv = (u, v)
+            ctx.ob(rule, "ancestor-implies-prefix/suffix_aware=%s" % aware, bad_fwd is None,
+                   "%r lies under %r but the stems %r are not a prefix of %r (suffix_aware=%s)" % ((bad_fwd or ("", ""))[1], (bad_fwd or ("", ""))[0], core.get((bad_fwd or ("",))[0]), stems.get((bad_fwd or ("", ""))[1]), aware), site,
+                   witness=bad_fwd and bad_fwd[1], sample="%d urls, %d ordered pairs (suffix_aware=%s)" % (len(stems), npairs, aware))
+            ctx.ob(rule, "prefix-implies-ancestor/suffix_aware=%s" % aware, bad_conv is None,
+                   "the stems of %r are a prefix of those of %r although the second does not lie under the first (suffix_aware=%s)" % ((bad_conv or ("", ""))[0], (bad_conv or ("", ""))[1], aware), site, witness=bad_conv and bad_conv[1])
+            ctx.require_instances(rule, len(stems), len(urls) - 5, "urls of the universe")
+    finally:
+        repo.overrides = {}
+
+
+def lru_grid():
+    """the product of the component-presence classes of C12's quantifier (thorough tier)"""
+    out = []
+    for sc in ("http://", "https://", ""):
+        for ui in ("", "u@", "u:p@", ":p@"):
+            for h in ("a.com", "b.a.co.uk", "127.0.0.1", "[::1]", "localhost"):
+                for po in ("", ":8080"):
+                    for pa in ("", "/", "/a//b", "/a/b/", "/a:b@c"):
+                        for q in ("", "?k=v", "?a=1&b"):
+                            for f in ("", "#f"):
+                                out.append(sc + ui + h + po + pa + q + f)
+    return out
